@@ -120,7 +120,8 @@ fn frame_bytes(f: &Fin) -> anyhow::Result<Vec<u8>> {
         }
         Fin::Bad(0) => vec![0, 0, 0, 3, 0xff, 0xff, 0xff],          // well-framed garbage
         Fin::Bad(1) => vec![0x7f, 0xff, 0xff, 0xff, 1, 2, 3],        // oversized length header
-        Fin::Bad(_) => vec![0, 0, 0, 9, 1, 2],                        // a frame cut short by the end of the stream
+        Fin::Bad(2) => vec![0, 0, 0, 9, 1, 2],                        // a frame cut short by the end of the stream
+        Fin::Bad(_) => vec![0, 0],                                    // the stream ends inside a length header
         _ => vec![],
     })
 }
@@ -175,7 +176,7 @@ pub fn run(seed: u64, n: usize, out: &Path, _thorough: bool) -> anyhow::Result<(
             } else if roll < 62 {
                 script.push(Fin::Msg { init: false, abort: Some(*rng.pick(&[AbortReason::NotFound, AbortReason::AlreadySyncing, AbortReason::InternalServerError])), ns, m: WMessage { parts: vec![] } });
             } else if roll < 70 {
-                let k = rng.below(3) as u8;
+                let k = rng.below(4) as u8;
                 script.push(Fin::Bad(k));
                 break;
             } else if roll < 80 {
@@ -311,7 +312,7 @@ pub fn run(seed: u64, n: usize, out: &Path, _thorough: bool) -> anyhow::Result<(
                     _ => {
                         let bytes = frame_bytes(f)?;
                         if peer_w.write_all(&bytes).await.is_err() { break; }
-                        if matches!(f, Fin::Bad(2)) { break; }
+                        if matches!(f, Fin::Bad(2) | Fin::Bad(3)) { break; }
                         // the driver answers or finishes
                         match tokio::time::timeout(Duration::from_secs(5), read_frame(&mut peer_r, &mut inbuf)).await {
                             Ok(Some(m)) => sent.push(m),
